@@ -232,6 +232,26 @@ def k_fresh_results(ctx, w, v):
         attempt(setattr, a, "value", v.to_bytes(w, "big") if w else 0)
 
 
+def k_conversion_order(ctx, w, signed_first):
+    """The two conversion helpers and the field classes in either order of first use: each keeps its own range (signed:
+    |v| <= 2^(8w-1)-1, unsigned: 0 <= v <= 2^(8w)-1) whatever ran first in the process for that width."""
+    U = _imp()
+    case = {"k": "conversion_order", "w": w, "signed_first": signed_first}
+    ctx.case(f"conversion_order/w={w}", (w, signed_first), sample=case)
+    top_s, top_u = (1 << (8 * w - 1)) - 1, (1 << 8 * w) - 1
+    steps = [("signed", lambda: bytes(U.IntByteConversion.to_signed(w, -top_s)) == (-top_s).to_bytes(w, "big", signed=True)),
+             ("unsigned", lambda: bytes(U.IntByteConversion.to_unsigned(w, top_u)) == top_u.to_bytes(w, "big")),
+             ("field", lambda: bytes(U.UnsignedByteField(top_u, w).as_bytes) == top_u.to_bytes(w, "big") and int(U.ByteFieldGenerator.from_int(w, top_s + 1)) == top_s + 1)]
+    if not signed_first:
+        steps = steps[1:] + steps[:1]
+    for name, fn in steps + steps:
+        ok, res = attempt(fn)
+        ctx.check("conv", ok and res is True, "range_depends_on_what_ran_first", f"w={w}/{name}", case, observed=repr(res))
+    for name, fn, exc in (("signed_too_large", lambda: U.IntByteConversion.to_signed(w, top_s + 1), ValueError), ("unsigned_too_large", lambda: U.IntByteConversion.to_unsigned(w, top_u + 1), ValueError)):
+        ok, res = attempt(fn)
+        ctx.check("conv", (not ok) and isinstance(res, exc), "out_of_range_not_refused_with_ValueError", f"w={w}/{name}", case, observed=repr(res))
+
+
 def k_handed_over(ctx, w1, v1, w2, v2, seed):
     """Field objects handed to the components that take them (PDU configuration / header, transaction id, reserved messages)
     remain the caller's objects: whatever those components do or refuse, each field still shows its own (value, width) in every view."""
@@ -278,11 +298,13 @@ def k_handed_over(ctx, w1, v1, w2, v2, seed):
                       "same_width" if w1 == w2 else "different_widths", dict(case, which=name), uses=uses)
 
 
-KINDS = {"field_set": k_field_set, "fresh_results": k_fresh_results, "handed_over": k_handed_over, "field": k_field, "pair": k_pair, "refuse": k_refuse, "conv": k_conv, "assign_history": k_assign_history}
+KINDS = {"conversion_order": k_conversion_order, "field_set": k_field_set, "fresh_results": k_fresh_results, "handed_over": k_handed_over, "field": k_field, "pair": k_pair, "refuse": k_refuse, "conv": k_conv, "assign_history": k_assign_history}
 ROUTES = ("ctor", "gen_int", "gen_bytes", "from_bytes", "subclass", "assign_int", "assign_bytes")
 
 
 def run(ctx):
+    for w in (8, 4, 2, 1):
+        k_conversion_order(ctx, w, w in (8, 2))
     r = ctx.rng
     U = _imp()
     # width 0
